@@ -9,6 +9,7 @@ import (
 
 	"github.com/openfga/openfga/internal/concurrency"
 	"github.com/openfga/openfga/internal/containers"
+	"github.com/openfga/openfga/internal/verifhook"
 )
 
 // Preprocessor filters or transforms a batch of values before they are
@@ -207,6 +208,7 @@ func (w *Basic) Execute(ctx context.Context) {
 		// closes its listeners (unblocking the next member's cyclical
 		// Recv calls) and then wakes the next member.
 		if w.Membership.IsLeader() {
+			verifhook.Event("cycle.cleanup", w.Membership.reporter, w.Membership.label, true)
 			w.Cleanup()
 			w.Membership.Next().Wake()
 			return
@@ -215,6 +217,7 @@ func (w *Basic) Execute(ctx context.Context) {
 		// When the context is canceled, sleep should still wait for the upstream
 		// worker to finish. Therefore, we use [context.Background] here.
 		w.Membership.Sleep(context.Background())
+		verifhook.Event("cycle.cleanup", w.Membership.reporter, w.Membership.label, false)
 		w.Cleanup()
 		w.Membership.Next().Wake()
 	}
